@@ -340,7 +340,6 @@ def run_plan(plan, trace=False):
                 elif o == "open":
                     if h["obj"] is None:
                         continue
-                    before = (h["obj"]._eof, len(h["obj"]._toc))
                     reads0 = kern.counters["read"]
                     if op["mode"] is None:
                         res.stats["probe:reopened_without_explicit_mode"] += 1
@@ -510,7 +509,7 @@ def run_plan(plan, trace=False):
                             if j != op["h"]:
                                 appended_since[j] += 1
                         if deferring:
-                            if h["obj"]._backend._usedmem == 0:
+                            if getattr(getattr(h["obj"], "_backend", None), "_usedmem", None) == 0:
                                 res.stats["probe:flush_by_bufsize_threshold"] += 1
                         if deferring and len(log) % 3:
                             # reading a queued key makes the collection store it: leave most puts QUEUED, so that later
@@ -642,8 +641,10 @@ def run_plan(plan, trace=False):
                         continue
                     # an explicit flush inside a writing session stores what is queued; nothing else changes
                     h["obj"].flush()
-                    if h["obj"]._backend._write_queue:
-                        viol("flush-left-items-queued", "flush", h, f"{len(h['obj']._backend._write_queue)} items still queued")
+                    # (peeking at the queue is a courtesy: where the attribute does not exist nothing is concluded)
+                    left_ = getattr(getattr(h["obj"], "_backend", None), "_write_queue", None)
+                    if left_:
+                        viol("flush-left-items-queued", "flush", h, f"{len(left_)} items still queued")
                     res.stats["probe:explicit_flush"] += 1
                     check_view(h, "flush", full=True)
                     outcome_seq.append(("flush",))
